@@ -366,6 +366,35 @@ fn judge_run(run: &ScriptRun, gname: &'static str, case: usize, items: &Mutex<Ve
                 }
             }
             cr.count("receiver_metadata_compared", n_meta);
+            // ... and every object the instances list is found there by flute's receiver: the whole stream was pushed
+            // in emission order, so an object with a packet on the wire was announced before it and new_object_writer
+            // has been called for its TOI (whatever the width of the TOI)
+            let mut n_listed = 0u64;
+            for (i, t) in run.tois.iter().enumerate() {
+                let t = match t {
+                    Some(t) => *t,
+                    None => continue,
+                };
+                let needle = format!("TOI=\"{}\"", t);
+                let first_pkt = match run.stream.iter().position(|p| p.toi() == t) {
+                    Some(k) => k,
+                    None => continue,
+                };
+                // listed by an instance flute's receiver received (fdt_received) that was complete on the wire before the first packet
+                let listed = insts.iter().any(|inst| inst.t_complete.is_some() && inst.xml.as_deref().map(|x| x.contains(&needle)).unwrap_or(false)
+                    && rx.log.fdts.iter().any(|f| Some(f.xml.as_str()) == inst.xml.as_deref())
+                    && run.stream[..first_pkt].iter().filter(|p| p.toi() == 0 && p.dec.fdt.map(|f| f.1) == Some(inst.id)).count() > 0
+                    && inst.t_complete.map(|tc| tc <= run.stream[first_pkt].t).unwrap_or(false));
+                if !listed {
+                    continue;
+                }
+                n_listed += 1;
+                if !rx.log.writers.iter().any(|w| w.toi == t) {
+                    cr.violations.push(Violation::new("receiver_listing", format!("TOI {} is listed by an FDT instance flute's receiver received before the object, yet the receiver never found its File entry (no new_object_writer call)", t))
+                        .with("mode", mode).with("toi_ge_2_64", t >= (1u128 << 64)).with("toi_bits", run.spec.toi_bits).witness(wit(json!({"object": run.objs[i].json(), "toi": t.to_string()}))));
+                }
+            }
+            cr.count("receiver_listed_objects_looked_up", n_listed);
         }
         Err(p) => cr.violations.push(Violation::new("panic", format!("receiver panicked: {} @ {}", p.msg, p.short_loc())).with("site", p.file()).witness(wit(json!(null)))),
     }
